@@ -61,7 +61,7 @@ type c10Cb struct {
 type c10Clock struct {
 	mu     sync.Mutex
 	now    int64
-	tick   int64 // the clock moves by tick after every read made by the collector's own goroutine
+	tick   int64 // the clock moves by tick after every Now (outside callbacks), AfterFunc and Reset
 	timers []*c10Timer
 	cbs    []*c10Cb
 	gids   map[uint64]*c10Cb
@@ -107,6 +107,7 @@ func (c *c10Clock) AfterFunc(d time.Duration, f func()) collector.VerifTimer {
 	defer c.mu.Unlock()
 	t := &c10Timer{c: c, id: len(c.timers), f: f, armed: true, deadline: c.now + int64(d)}
 	c.timers = append(c.timers, t)
+	c.now += c.tick
 	return t
 }
 
@@ -124,6 +125,7 @@ func (t *c10Timer) Reset(d time.Duration) bool {
 	was := t.armed
 	t.armed = true
 	t.deadline = t.c.now + int64(d)
+	t.c.now += t.c.tick
 	return was
 }
 
